@@ -17,7 +17,12 @@ type c18 struct{}
 
 func init() { engine.Register(c18{}) }
 
-func (c18) PostGenerate(r *engine.Rand, sc *engine.Scenario) { chooseEnv(r, sc) }
+func (c18) PostGenerate(r *engine.Rand, sc *engine.Scenario) {
+	chooseEnv(r, sc)
+	if r.Chance(1, 3) {
+		addOtherUnitEvents(r, sc, exclSound)
+	}
+}
 
 func (c18) ID() string { return "C18" }
 
@@ -159,6 +164,9 @@ func (c18) Execute(sc *engine.Scenario) *engine.Result {
 		for ei < len(sc.Events) && sc.Events[ei].At <= m.N && ok {
 			ev := sc.Events[ei]
 			ei++
+			if applyOther(m, &ev, res) {
+				continue
+			}
 			on3 := ch3on()
 			pw := ref.Power
 			switch {
